@@ -453,13 +453,13 @@ func (p *Program) memberSlice(t types.Type) bool {
 
 // d3Exceptions: segment loops that start at a later pair on purpose.
 var d3Exceptions = map[string]string{
-	"orb.(Ring).Orientation#for": "origin-shifted shoelace: coordinates are taken relative to r[0], so the pairs touching r[0] contribute zero and the fan starts at (1,2)",
+	"orb.(Ring).Orientation#for":  "origin-shifted shoelace: coordinates are taken relative to r[0], so the pairs touching r[0] contribute zero and the fan starts at (1,2)",
 	"planar.ringCentroidArea#for": "origin-shifted shoelace with centroid accumulation: triangles (r[0], r[i], r[i+1]); the pair (0,1) is degenerate by construction",
 }
 
 // d2Exceptions: member loops that skip a prefix on purpose without touching it.
 var d2Exceptions = map[string]string{
-	"simplify.(*RadialSimplifier).simplify#for":     "ls[0] is read as ls[current] with current initialised to 0; the first vertex is always kept",
+	"simplify.(*RadialSimplifier).simplify#for":      "ls[0] is read as ls[current] with current initialised to 0; the first vertex is always kept",
 	"simplify.(*VisvalingamSimplifier).simplify#for": "loop builds the interior items only; first and last vertex are pushed explicitly before and after it with infinite area",
 }
 
